@@ -15,9 +15,10 @@ def run(tier, seed):
         raise MachineryError(f"spec constant Current = <<0,8,4>> but physt.__version__ = {physt.__version__}")
     cfg = "MC_IO_q" if tier == "quick" else "MC_IO_t"
     _res, g = ctx.model_check(cfg, required_actions=REQ)
-    combos = [("decimal", 0, 0.1), ("ulp", 1, 1.0)]
+    # tiny: gaps between bins far below numpy.allclose's tolerance are still gaps and must come back as gaps
+    combos = [("decimal", 0, 0.1), ("ulp", 1, 1.0), ("tiny", 0, 1e-300)]
     if tier == "thorough":
-        combos += [("dyadic", 0, 0.5), ("huge", 1, 1e300), ("tiny", 0, 1e-300), ("neg", 1, 1 / 3)]
+        combos += [("dyadic", 0, 0.5), ("huge", 1, 1e300), ("neg", 1, 1 / 3)]
     for pe, sp, fs in combos:
         ctx.replay(g, IOAdapter(POS[pe], sp, fs), {"all"}, label=f"{pe}/sp{sp}/x{fs}")
     ctx.assumptions = ["float -> text -> float fidelity inside the json module (repr round trip) is Python's guarantee and only sampled",
